@@ -423,7 +423,7 @@ def run(tier: str, seed: int) -> Result:
     grp = [it for it in items if it[0] != 'Shape']
     work += [('group', ('mem', grp[j:j + 60], (j // 60) % len(CLOCKS))) for j in range(0, len(grp), 60)]
     work += [('group', ('local', grp[j:j + 60], 1)) for j in range(0, len(grp), 60 * fs_every)]
-    two = grp[::7]
+    two = [it for it in grp[::7] if it[0] != 'NoCacheT']      # a cache=None type is re-executed by design
     work += [('two', two[j:j + 50]) for j in range(0, len(two), 50)]
     reuse = [(b, 0, 3) for b in backends] if tier == 'quick' else [(b, w, 2 + w) for b in backends for w in (0, 1, 2)]
     work = [('cross', c) for c in cross] + [('reuse', r) for r in reuse] + work
